@@ -574,6 +574,11 @@ func (p *printer) tryPrefixForm(v *lisp.LVal, indent int) bool {
 	if len(v.Cells) != 2 || v.Cells[0].Type != lisp.LSymbol {
 		return false
 	}
+	// A quoted head is data, not the operator: ('lisp:function f) is a call
+	// whose head is the quoted symbol, and "#'f" reads back with a bare head.
+	if v.Cells[0].IsQuoted() {
+		return false
+	}
 	// The shorthand has nowhere to put a comment written inside the form: it
 	// writes the prefix and the operand and nothing else, so re-sugaring
 	// "(lisp:function ; c\n f)" to "#'f" DELETES the comment.  rdparser hoists
